@@ -45,11 +45,18 @@ class Scenario:
     def __init__(self, recipe, faults):
         self.world = plugsynth.World()
         self.env = {}
+        self.twins = False
         specs = []
         for i, p in enumerate(recipe['plugins']):
             specs.append({'name': 'P%d' % i, 'roles': p['roles'], 'order': p['order'], 'state': p['state'],
                           'ctor': 'raises' if p['state'] == 'ctor_raises' else 'ok',
                           'faults': {cb: [n, recipe.get('fault_kind') or 'E'] for (pi, cb, n) in faults if pi == i}})
+            # two plugins that go by the same name (the name defaults to the class name: same-named classes of two
+            # packages): they are two plugins, both listed, both loaded. Their switch is shared, so it stays unset here
+            prev = recipe['plugins'][i - 1] if i else None
+            if p.get('twin') and prev and all(q['state'] == 'ok' and not q.get('switch') for q in (p, prev)):
+                specs[i]['display'] = specs[i - 1].get('display') or 'P%d' % (i - 1)
+                self.twins = True
         self.specs = specs
         dotted, self.mname = plugsynth.make_module(self.world, specs)
         custom = dict(BUILTINS, APP_ROOT='/app', PLUGINS=dotted, POLL_TIMER=1000, SERVICE_SECURE='False')
@@ -104,7 +111,8 @@ class Scenario:
             finally:
                 sys.settrace(old[0])
                 threading.settrace(old[1])
-            self.loaded = [p.name for p in d.config.plugins if p.name.startswith('P') and p.name[1:].isdigit()]
+            self.loaded = [type(p).__name__ for p in d.config.plugins
+                           if type(p).__name__.startswith('P') and type(p).__name__[1:].isdigit()]
             self.resource = dict(d.config.resource.attributes) if d.config.resource else {}
             for _ in range(4):
                 g = two_line_frame()
@@ -162,6 +170,7 @@ class C20(Prop):
                                       'is_active_raises', 'inactive_env']),
             # how an active plugin's switch is spelled: not at all, or explicitly on (bool / text in code, environment)
             'switch': st.sampled_from([None, None, None, 'bool', 'text', 'env']),
+            'twin': st.sampled_from([False, False, False, True]),
         })
         return fd({
             'plugins': st.one_of(st.lists(plugin, min_size=0, max_size=4), st.lists(plugin, min_size=2, max_size=4)),
@@ -195,6 +204,8 @@ class C20(Prop):
             out.cls('skipped_plugin')
         if len(ok) >= 2:
             out.cls('two_active')
+        if base.twins:
+            out.cls('two_plugins_with_one_name')
         if sorted(base.loaded) != sorted(exp_loaded):
             extra = sorted(set(base.loaded) - set(exp_loaded))
             out.violate('loader: %s' % ('an inactive / unloadable plugin was loaded' if extra else
@@ -280,10 +291,10 @@ class C20(Prop):
                 if miss:
                     out.violate('%s: decorations of the healthy decorators are missing' % tag, {'missing': miss})
                     break
-            open_spans = [s for s in sc.world.spans if s.closed == 0 and not (s.plugin.name == who and cb == 'close')]
+            open_spans = [s for s in sc.world.spans if s.closed == 0 and not (type(s.plugin).__name__ == who and cb == 'close')]
             if open_spans:
                 out.violate('%s: a span that was opened is never closed' % tag,
-                            {'placement': pl, 'open': [s.plugin.name for s in open_spans]})
+                            {'placement': pl, 'open': [type(s.plugin).__name__ for s in open_spans]})
                 break
             twice = [s for s in sc.world.spans if s.closed > 1]
             if twice:
